@@ -88,9 +88,9 @@ func RunScheduled(cx *Ctx, bodies []func()) *SchedResult {
 	res := &SchedResult{}
 	t := cx.T
 	type taskState struct {
-		live   bool
-		kind   int32 // the point the task is parked at
-		obj    int32
+		live bool
+		kind int32 // the point the task is parked at
+		obj  int32
 	}
 	tasks := make([]taskState, n)
 	locks := map[int32]*lockState{}
